@@ -91,8 +91,8 @@ VMixed(r) ==
 VMath(r) ==
   IF r.at = "int"
   THEN IF r.fn \in {"floor", "ceil"} THEN Req(r.res, LAMBDA v : VIsInt(v, r.a))
-       ELSE \* round(int): a float equal to the integer, or a failure
-            Tol(r.res, LAMBDA v : VIsFloat(v) /\ FloatIsInt(v, r.a))
+       ELSE \* round(int): the integer itself or a float exactly equal to it, or a failure
+            Tol(r.res, LAMBDA v : VIsInt(v, r.a) \/ (VIsFloat(v) /\ FloatIsInt(v, r.a)))
   ELSE IF r.fn \in {"floor", "ceil"}
   THEN IF ~IsFinite(r.a) THEN MustFail(r.res)
        ELSE Req(r.res, LAMBDA v : VIsInt(v, IF r.fn = "floor" THEN FFloor(r.a) ELSE FCeil(r.a)))
